@@ -78,7 +78,10 @@ mutual
           | none => acc
           | some e =>
             let e1 := if sc.emitted[i]?.getD false then [s!"expression {i} is emitted twice"] else []
-            let e2 := if !needsEmit e then [s!"expression {i} needs no emission but lies in an emit range"] else []
+            let kindName := match e with
+              | .lit _ => "literal" | .const _ => "constant" | .zero _ => "zero value" | .arg _ => "function argument"
+              | .global _ => "global variable" | .localVar _ => "local variable" | .callResult _ => "call result" | _ => "pre-emit kind"
+            let e2 := if !needsEmit e then [s!"expression {i} ({kindName}) needs no emission but lies in an emit range"] else []
             let e3 := (operands e).flatMap (fun o => useErr c sc s!"operand of emitted expression {i}" o)
             (acc.1 ++ e1 ++ e2 ++ e3, { sc with emitted := sc.emitted.set! i true })) ([], s)
     | .block b =>
